@@ -165,7 +165,7 @@ CHECKS["C01"] = {
 
 CHECKS["C02"] = {
     "pkg": "c02",
-    "level": "exploration",
+    "level": "fault_enumeration",
     "technique": "generated commit scenarios x exhaustive crash-point sweep: the victim client is killed before / after each individual request its Commit issues (synchronous and background), then other simulated clients recover; oracle = history invariants over the raw MVCC truth (single outcome, one commit ts, acknowledgement consistency, no partial snapshot, no lock left)",
     "level_text": "For every generated scenario the number N of requests the fault-free Commit sends is measured and the scenario is re-executed for every crash point (2N executions in the thorough tier, an evenly spaced subset of at most 12 points in the quick tier) on mocktikv (2PC, 1 or 3 stores) and on unistore (async commit, 1PC). The client process is modelled by its connection: from the crash instant on all its requests fail and its background goroutines can no longer reach the store. Crash points between two instructions of the client that do not involve a request are indistinguishable from the neighbouring request boundaries for the store and are therefore covered; crashes of the stores themselves are out of scope.",
     "level_note": "Trusted: mocktikv (checked by C12) and unistore as stores, lock expiry simulated by advancing the virtual TSO clock (mocktikv) or skewing the clients' clock (unistore).",
@@ -177,7 +177,7 @@ CHECKS["C02"] = {
 
 CHECKS["C03"] = {
     "pkg": "c03",
-    "level": "exploration",
+    "level": "fault_enumeration",
     "technique": "generated commit scenarios x fault-position sweep (lost request, lost response, five region errors, split, leader transfer, resolver race on a skewed clock at every request of Commit) plus generated multi-fault plans, with a fault-free twin; oracle = Commit's answer versus the raw MVCC truth after recovery, and a trace predicate that justifies every 'undetermined'",
     "level_text": "Each generated scenario is executed once fault-free (twin), once per (request position, fault kind) and with 1-3 generated multi-fault plans, on mocktikv (2PC, virtual time) and unistore (async commit, 1PC). Faults are injected by the per-client RPC interposer; a resolver race runs another client, for which all locks look expired, while the victim's request is parked. Interleavings inside the store or inside the client between two requests are not enumerated.",
     "level_note": "Trusted: mocktikv (C12) and unistore as stores; the injected region errors are synthesised by the interposer (the store did not execute the request).",
